@@ -1016,6 +1016,65 @@ fn mat_view_case<M: MatOps<N, NN>, const N: usize, const NN: usize>(idx: u64, cx
 }
 
 // ------------------------------------------------------------------------------------------------
+// (b') conversions between vector types that take their operands apart: (smaller vector, scalar) -> vector,
+// larger vector -> smaller vector (the trailing elements are dropped exactly once), kind changes
+// ------------------------------------------------------------------------------------------------
+
+const CROSS_CONV_TOTAL: u64 = 22;
+
+fn cross_conv_case(idx: u64, cx: &mut Cx) -> CaseResult {
+    ledger::reset();
+    cx.nontrivial();
+    let mk = |k: usize| ledger::fresh(2000 + k as u32);
+    // $e consumes the freshly built operands; $ids reads the element ids of the result in order; the first
+    // $kept source elements must be in the result, the others dropped exactly once by the conversion
+    macro_rules! conv {
+        ($what:expr, $n_src:expr, $kept:expr, $e:expr, |$r:ident| $ids:expr) => {{
+            cx.label($what);
+            sample!(cx, "{} on tracked elements #0..#{}", $what, $n_src - 1);
+            let before = ledger::totals();
+            let $r = $e;
+            let after = ledger::totals();
+            cx.count();
+            let dropped_in_transit: u32 = ($n_src - $kept) as u32;
+            if after.ids != before.ids + $n_src as usize || after.drops != before.drops + dropped_in_transit || after.clones != before.clones || after.observed != before.observed {
+                fail!("{}: expected {} elements created by the harness and {} (the discarded ones) dropped by the conversion, nothing cloned or observed: before {:?}, after {:?}", $what, $n_src, dropped_in_transit, before, after);
+            }
+            settle_strict(cx, &|| format!("{}", $what))?;
+            let ids: Vec<u32> = $ids;
+            check_eq!(cx, ids, (0..$kept as u32).collect::<Vec<u32>>(), "{}: element ids of the result, in order", $what);
+            drop($r);
+            all_dropped_once(cx, &|| format!("{}, after dropping the result", $what))?;
+        }};
+    }
+    match idx {
+        0 => conv!("Vec3::from((Vec2, z))", 3, 3, Vec3::from((Vec2 { x: mk(0), y: mk(1) }, mk(2))), |r| vec![r.x.id, r.y.id, r.z.id]),
+        1 => conv!("Vec4::from((Vec3, w))", 4, 4, Vec4::from((Vec3 { x: mk(0), y: mk(1), z: mk(2) }, mk(3))), |r| vec![r.x.id, r.y.id, r.z.id, r.w.id]),
+        2 => conv!("Extent3::from((Extent2, d))", 3, 3, Extent3::from((Extent2 { w: mk(0), h: mk(1) }, mk(2))), |r| vec![r.w.id, r.h.id, r.d.id]),
+        3 => conv!("Rgba::from((Rgb, a))", 4, 4, Rgba::from((Rgb { r: mk(0), g: mk(1), b: mk(2) }, mk(3))), |r| vec![r.r.id, r.g.id, r.b.id, r.a.id]),
+        4 => conv!("Uvw::from((Uv, w))", 3, 3, Uvw::from((Uv { u: mk(0), v: mk(1) }, mk(2))), |r| vec![r.u.id, r.v.id, r.w.id]),
+        5 => conv!("Into::<Vec3>::into((Vec2, z))", 3, 3, { let r: Vec3<Tracked> = (Vec2 { x: mk(0), y: mk(1) }, mk(2)).into(); r }, |r| vec![r.x.id, r.y.id, r.z.id]),
+        6 => conv!("Into::<Vec4>::into((Vec3, w))", 4, 4, { let r: Vec4<Tracked> = (Vec3 { x: mk(0), y: mk(1), z: mk(2) }, mk(3)).into(); r }, |r| vec![r.x.id, r.y.id, r.z.id, r.w.id]),
+        7 => conv!("Vec3::from(Vec4)", 4, 3, Vec3::from(Vec4 { x: mk(0), y: mk(1), z: mk(2), w: mk(3) }), |r| vec![r.x.id, r.y.id, r.z.id]),
+        8 => conv!("Vec2::from(Vec4)", 4, 2, Vec2::from(Vec4 { x: mk(0), y: mk(1), z: mk(2), w: mk(3) }), |r| vec![r.x.id, r.y.id]),
+        9 => conv!("Vec2::from(Vec3)", 3, 2, Vec2::from(Vec3 { x: mk(0), y: mk(1), z: mk(2) }), |r| vec![r.x.id, r.y.id]),
+        10 => conv!("Vec4::xyz()", 4, 3, Vec4 { x: mk(0), y: mk(1), z: mk(2), w: mk(3) }.xyz(), |r| vec![r.x.id, r.y.id, r.z.id]),
+        11 => conv!("Vec4::xy()", 4, 2, Vec4 { x: mk(0), y: mk(1), z: mk(2), w: mk(3) }.xy(), |r| vec![r.x.id, r.y.id]),
+        12 => conv!("Vec3::xy()", 3, 2, Vec3 { x: mk(0), y: mk(1), z: mk(2) }.xy(), |r| vec![r.x.id, r.y.id]),
+        13 => conv!("Rgba::rgb()", 4, 3, Rgba { r: mk(0), g: mk(1), b: mk(2), a: mk(3) }.rgb(), |r| vec![r.r.id, r.g.id, r.b.id]),
+        14 => conv!("Rgb::from(Rgba)", 4, 3, Rgb::from(Rgba { r: mk(0), g: mk(1), b: mk(2), a: mk(3) }), |r| vec![r.r.id, r.g.id, r.b.id]),
+        15 => conv!("Vec4::from(Rgba)", 4, 4, Vec4::from(Rgba { r: mk(0), g: mk(1), b: mk(2), a: mk(3) }), |r| vec![r.x.id, r.y.id, r.z.id, r.w.id]),
+        16 => conv!("Rgba::from(Vec4)", 4, 4, Rgba::from(Vec4 { x: mk(0), y: mk(1), z: mk(2), w: mk(3) }), |r| vec![r.r.id, r.g.id, r.b.id, r.a.id]),
+        17 => conv!("Vec3::from(Extent3)", 3, 3, Vec3::from(Extent3 { w: mk(0), h: mk(1), d: mk(2) }), |r| vec![r.x.id, r.y.id, r.z.id]),
+        18 => conv!("Extent2::from(Vec2)", 2, 2, Extent2::from(Vec2 { x: mk(0), y: mk(1) }), |r| vec![r.w.id, r.h.id]),
+        19 => conv!("Vec3::from(Rgb)", 3, 3, Vec3::from(Rgb { r: mk(0), g: mk(1), b: mk(2) }), |r| vec![r.x.id, r.y.id, r.z.id]),
+        20 => conv!("Uvw::from(Vec3)", 3, 3, Uvw::from(Vec3 { x: mk(0), y: mk(1), z: mk(2) }), |r| vec![r.u.id, r.v.id, r.w.id]),
+        _ => conv!("Uv::from(Vec2)", 2, 2, Uv::from(Vec2 { x: mk(0), y: mk(1) }), |r| vec![r.u.id, r.v.id]),
+    }
+    Ok(())
+}
+
+// ------------------------------------------------------------------------------------------------
 
 pub fn property() -> Property {
     let mut checks = Vec::new();
@@ -1203,6 +1262,11 @@ pub fn property() -> Property {
             });
         }};
     }
+    checks.push(Check {
+        name: "conv-across-vector-types",
+        about: "conversions that take vectors apart or change their kind: From<(smaller vector, scalar)> for Vec3 / Vec4 / Extent3 / Rgba / Uvw (also through Into), shrinking From<Vec4> / From<Vec3> / xyz() / xy() / rgb(), kind changes Vec <-> Rgba / Rgb / Extent / Uv / Uvw: the kept elements are MOVED (same ids, in order, nothing cloned or observed), the discarded trailing elements are dropped exactly once by the conversion, nothing is dropped twice or leaked when the result is dropped",
+        kind: Kind::Index { total: CROSS_CONV_TOTAL, quick: CROSS_CONV_TOTAL, thorough: CROSS_CONV_TOTAL, f: cross_conv_case },
+    });
     checks.push(Check {
         name: "element-layouts",
         about: "element types with an unusual layout (zero-sized with drop glue, one byte, align 64, 72 bytes; plus (), [u64; 0], PhantomData) x 13 vector types x {shared views, mutable views, every (front, back) split of the consuming iterator, arrays / tuples, FromIterator with source length 0..=n+2, map / zip, unit elements} and x 6 matrix types x {flat arrays, nested arrays, transpose / map, lines / Debug / diagonal}: every view has one entry per element inside the value's own storage, position k holds element k, every constructed element is dropped exactly once (counted by the element type itself)",
